@@ -277,6 +277,16 @@ func (s *HiddenFS) Rename(oldname, newname string) error {
 		return &os.PathError{Op: "rename", Path: newname, Err: ErrHiddenPermission}
 	}
 
+	// renaming a directory onto a (missing) parent directory of a hidden path would
+	// bring the moved content to the hidden location
+	containsHidden, err = s.isParentOfHidden(newname)
+	if err != nil {
+		return &os.PathError{Op: "rename", Path: newname, Err: wrapErrParentOfHiddenCheckFailed(err)}
+	}
+	if containsHidden {
+		return &os.PathError{Op: "rename", Path: newname, Err: ErrHiddenPermission}
+	}
+
 	err = s.base.Rename(oldname, newname)
 	if err != nil {
 		return err
